@@ -187,9 +187,12 @@ def _validate_one(args):
     res["drift"] = len(re.findall(r'<<"DRIFT_AT"', r.out))
     if r.invariant:
         # position of the violating record: value of l in the last printed state minus one
-        ls = re.findall(r"/\\ l = (\d+)", r.out)
+        ls = re.findall(r"/\\ l = (\d+)", r.out) or re.findall(r"(?m)^l = (\d+)", r.out)
         if ls:
             res["record"] = int(ls[-1]) - 1
+        elif r.rejected_at:
+            # single-variable trace specs print no conjunction list; the diameter is the value of l in the violating state
+            res["record"] = r.rejected_at[0] - 1
     elif r.rejected_at:
         res["record"] = r.rejected_at[0]
     return res
